@@ -92,7 +92,7 @@ def _locate_meshes(tier):
         else:
             variants = [("affine", 2, 0), ("general", 2, 0), ("general", 1, 0)]
         for shape, k, diag in variants:
-            for mp in ["identity", "rot", "emb", "mirror"] + (["milli"] if shape == "general" else []):
+            for mp in ["identity", "rot", "emb", "mirror"] + (["milli"] if shape == "general" else []) + ["milli_far"]:
                 out.append({"kind": "locate", "elemType": et, "k": k, "shape": shape, "diag": diag, "map": mp})
         for poly in (["L"] if tier == "quick" else POLYS_QUICK):
             for mp in ["identity", "emb", "mirror"]:
@@ -108,7 +108,7 @@ def _locate_meshes(tier):
         else:
             variants = [("affine", 1), ("frustum", 1)]
         for shape, k in variants:
-            for mp in ["identity", "rot", "mirror"] + (["milli"] if shape == "frustum" else []):
+            for mp in ["identity", "rot", "mirror"] + (["milli"] if shape == "frustum" else []) + (["milli_far"] if shape in ("affine", "general") else []):
                 out.append({"kind": "locate", "elemType": et, "k": k, "shape": shape, "diag": 0, "map": mp})
         if tier == "thorough":
             for mp in ["identity", "rot"]:
@@ -339,7 +339,7 @@ def describe(tier, seed):
                  "3D warped cells (non-planar faces), unstructured gmsh meshes of the L polygon (batch modes element/mesh only); lattice of 15/16/35/64/40 points per TRI/QUAD/TETRA/HEXA/PRISM plus the element's nodes; "
                  "batches of 1, 2, 3, 5, element, mesh, element with hint",
         "alphabet": {"letters": len(LETTERS), "element_types": len(Z.TYPES_2D) + len(Z.TYPES_3D), "domains": nd,
-                     "batch_modes": len(BATCHES), "placements": 4, "cell_shapes": 4},
+                     "batch_modes": len(BATCHES), "placements": 6, "cell_shapes": 4},
         "assumptions": [
             "generic angle / axis / plane / centre are seeded representatives (VERIF_SEED); 90 deg and the translation are fixed",
             "Rotate: right-handed rotation by theta degrees about the axis through `center` (Rodrigues formula written here); Symmetry: reflection "
@@ -576,6 +576,7 @@ def _check_state(mesh, X0, ex, Q, b, dom, key, step, obs):
     S = 0.0
     counts = {}
     bad_unit = 0.0
+    raw_err = 0.0
     fl_in, fl_bottom, n_invalid = [], [], 0
     for g in mesh.Get_list_groupElem(d - 1):
         nm = g.elemType.name
@@ -583,6 +584,12 @@ def _check_state(mesh, X0, ex, Q, b, dom, key, step, obs):
         wJ = np.asarray(g.Get_weightedJacobian_e_pg(MatrixType.mass), dtype=float)
         x = np.asarray(g.Get_GaussCoordinates_e_pg(MatrixType.mass), dtype=float)
         nops += 3
+        # documented contract of normalize=False: the vectors are the cross product of the surface tangents, their norm is the
+        # surface jacobian, weight_pg * normals is the area-weighted normal wJ_e_pg * normals_e_pg (at EVERY Gauss point)
+        nraw = np.asarray(g.Get_normals_e_pg(MatrixType.mass, normalize=False), dtype=float)
+        wpg = np.asarray(g.Get_weight_pg(MatrixType.mass), dtype=float).ravel()
+        nops += 1
+        raw_err = max(raw_err, float(np.abs(wpg[None, :, None] * nraw - wJ[..., None] * n).max() / max(float(np.abs(wJ).max()), 1e-300)))
         tot += np.einsum("ep,epd->d", wJ, n)
         flux += float(np.einsum("ep,epd,epd->", wJ, n, x))
         S += float(wJ.sum())
@@ -618,6 +625,9 @@ def _check_state(mesh, X0, ex, Q, b, dom, key, step, obs):
         v.append(viol("closure", f"{det} integral of n over all boundary groups = {tot} (boundary measure {S:.4g}); per group: {counts}", **bkey))
     if abs(flux - ex["measure"]) > 1e-10 * S * L:
         v.append(viol("flux", f"{det} flux of the position vector / {d} = {flux!r}, measure {ex['measure']!r}; per group: {counts}", **bkey))
+    if raw_err > 1e-9:
+        v.append(viol("normals_raw", f"{det} Get_normals_e_pg(normalize=False): weight_pg * normals differs from wJ_e_pg * (unit normals) by {raw_err:.2e} "
+                                     "of the largest weighted jacobian", **key))
     if pattern != "none" or bad_unit > 1e-9:
         v.append(viol("normals_elem", f"{det} boundary elements whose normal is not the outward unit normal (pattern '{pattern}'); per group: {counts}; "
                                       f"max | |n|-1 | = {bad_unit:.2e}", **bkey))
@@ -796,6 +806,11 @@ def _placement(name, d):
     if name == "milli":
         # the same body written in another unit of length (millimetre-size cells in metres): nothing may depend on the unit
         return 1e-3 * np.eye(3), np.zeros(3)
+    if name == "milli_far":
+        # a small detail far from the origin (cells of a fraction of a millimetre, tens of metres away), turned so that no edge is
+        # aligned with an axis: the location of the points of the boundary may depend neither on the unit nor on the origin
+        Q = Z.rot3(np.array([0.0, 0.0, 1.0]) if d == 2 else _generic_dir(r, False), np.deg2rad(r.uniform(20, 70)))
+        return 3e-4 * Q, np.array([65.0, -48.0, 0.0 if d == 2 else 31.0])
     if name == "rot":
         axis = np.array([0.0, 0.0, 1.0]) if d == 2 else _generic_dir(r, False)
         Q = Z.rot3(axis, np.deg2rad(r.uniform(20, 70)))
@@ -891,7 +906,7 @@ def _run_locate(case):
 
     dofs = field(coord).ravel()  # node-major: value of monomial j at node n is dofs[n * len(monos) + j]
     scale = max(1.0, float(np.abs(field(coord)).max()))
-    if mp == "milli":
+    if mp in ("milli", "milli_far"):
         # every monomial on its own scale (a field of size 1e-3 off by 40 % must not hide behind the constant monomial)
         scale = np.maximum(np.abs(field(coord)).max(axis=0), 1e-300)
     viols = {}
